@@ -49,7 +49,7 @@ def c09_cases(rng, tier):
                 regs = ["q", "r", "w"][:len(sizes)]
                 decl = [("qreg", regs[i], sizes[i]) for i in range(len(sizes))] + [("creg", "c", 1)]
                 lay = qa.Layout(); lay.q = [(regs[i], sizes[i]) for i in range(len(sizes))]
-                prep = []
+                prep = [("apply", "h", [("r", r_)], []) for r_ in regs]     # controls and targets in superposition
                 for _ in range(rng.randint(2, 6)):
                     st = qa.gen_gate_stmt(rng, lay, depth=1, allow_user=False, allow_ctrl=False)
                     if st:
@@ -238,6 +238,14 @@ def c13_mutants(rng, nodes, lay):
                 ins(pos(), ("gate", "gbad", ["a", "b"], [], [("apply", "x", [("r", "b")], []),
                                                               ("apply", "ccx", [("r", "a"), ("r", "b"), ("r", qn)], [])])),
                 ("UnknownReg", qn)))
+    # arity rules at a call site inside a gate body (checked when the outer gate is applied)
+    gin2 = ("gate", "gin", ["a", "b"], [], [("apply", "cx", [("r", "a"), ("r", "b")], [])])
+    gout1 = ("gate", "gout", ["a"], [], [("apply", "gin", [("r", "a")], [])])
+    out.append(("wrong qubit count in a nested call",
+                nodes + [gin2, gout1, ("apply", "gout", [("q", qn, 0)], [])], ("WrongRegNumber", "gin", 1)))
+    ginp = ("gate", "gin", ["a"], ["t"], [("apply", "rx", [("r", "a")], [("var", "t")])])
+    out.append(("wrong parameter count in a nested call",
+                nodes + [ginp, gout1, ("apply", "gout", [("q", qn, 0)], [])], ("WrongArgNumber", "gin", 0)))
     out.append(("unbound parameter inside a gate body",
                 ins(pos(), ("gate", "gbad", ["a"], ["t"], [("apply", "rx", [("r", "a")], [("add", ("var", "t"), ("var", "zz"))])])),
                 ("UnknownArg", "zz")))
@@ -424,6 +432,13 @@ def c18_cases(rng, tier):
            ("apply", "y", [("q", "zz", 0)], [])]
     cont = [("apply", "cx", [("q", "q", 0), ("q", "q", 1)], []), ("measure", ("r", "q"), ("r", "c"))]
     sessions.append({"chunks": [good0, bad, cont], "bad": [1], "seed": 5})
+    # a session with pending gates, and a failing chunk that reaches a measure / reset / if before the failing statement
+    zz = ("apply", "y", [("q", "zz", 0)], [])
+    for pre in ([("measure", ("r", "q"), ("r", "c"))], [("reset", ("q", "q", 0))],
+                [("if", "c", 0, ("apply", "x", [("q", "q", 1)], []))],
+                [("apply", "z", [("q", "q", 1)], []), ("measure", ("q", "q", 0), ("q", "c", 1)), ("apply", "h", [("q", "q", 1)], [])]):
+        sessions.append({"chunks": [good0, pre + [zz], cont], "bad": [1], "seed": 6})
+    sessions.append({"chunks": [good0, [("if", "zz", 1, ("apply", "x", [("q", "q", 1)], []))], cont], "bad": [1], "seed": 6})
     for _ in range(25 if tier == "quick" else 1200):
         nodes, lay = qa.gen_program(rng, nstmts=rng.randint(6, 16), max_q=5, measure_p=0.15, if_p=0.15, reset_p=0.05, gate_defs=2, depth=2)
         k = len(lay_decl_end(nodes))
@@ -440,6 +455,19 @@ def c18_cases(rng, tier):
             if st:
                 extra.append(st)
         extra += [("qreg", "fresh", 1), ("gate", "gfresh", ["a"], [], [("apply", "h", [("r", "a")], [])])]
+        # statements that close the open block of the operation queue (measure / reset / if) before the failing one
+        if lay.nc() and rng.random() < 0.8:
+            for _ in range(rng.randint(1, 2)):
+                kind = rng.choice(["measure", "reset", "if"])
+                if kind == "measure":
+                    extra.append(("measure", rng.choice(lay.qubits()), rng.choice(lay.cbits())))
+                elif kind == "reset":
+                    extra.append(("reset", rng.choice(lay.qubits())))
+                else:
+                    st = qa.gen_gate_stmt(rng, lay, depth=1)
+                    if st:
+                        cn, csz = rng.choice(lay.c)
+                        extra.append(("if", cn, rng.randrange(1 << csz), st))
         rng.shuffle(extra)
         muts = c13_mutants(rng, [("qreg", "qq0", 1)] + extra, lay)
         for p in range(len(extra) + 1):
@@ -564,7 +592,47 @@ def c12_strings(rng, tier):
         "qreg q[10]; qft q; h q; qft q;", "qreg q[1]; \x00x q[0];", "qreg q[1]; x q[0]\x00;", "qreg q[1];\xff", "﻿qreg q[1];",
         "qreg q[1]; gate g(" + ",".join("p%d" % i for i in range(300)) + ") a { } ", "qreg q[1]; creg c[1]; measure q[0] -> c[0]; " * 200,
     ]
+    adversarial += [
+        # arity mismatches of user gates called from inside other user gates (too few / too many operands, parameters)
+        "gate inner a, b { cx a, b; } gate outer a { inner a; } qreg q[2]; outer q[0];",
+        "gate inner a { x a; } gate outer a, b { inner a, b; } qreg q[2]; outer q[0], q[1];",
+        "gate inner(t) a { rx(t) a; } gate outer a { inner a; } qreg q[1]; outer q[0];",
+        "gate inner(t) a { rx(t) a; } gate outer a { inner(1,2) a; } qreg q[1]; outer q[0];",
+        "gate inner a, b { cx a, b; } gate mid a { inner a; } gate outer a { mid a; } qreg q[1]; outer q[0];",
+        "gate inner a, b, c { ccx a, b, c; } gate outer a, b { inner a, b; h a; } qreg q[3]; creg c[1]; outer q[0], q[2]; measure q[0] -> c[0];",
+    ]
     out += [(t, None) for t in adversarial]
+    # operand / parameter counts changed at random call sites, top level and inside gate bodies
+    def bump(st):
+        regs, pars = list(st[2]), list(st[3])
+        r = rng.random()
+        if r < 0.3 and regs:
+            regs = regs[:-1]
+        elif r < 0.55 and regs:
+            regs = regs + [regs[0]]
+        elif r < 0.8:
+            pars = pars + [("num", "1")]
+        elif pars:
+            pars = pars[:-1]
+        return ("apply", st[1], regs, pars)
+    for _ in range(40 if tier == "quick" else 1500):
+        nodes, lay = qa.gen_program(rng, nstmts=rng.randint(3, 10), max_q=5, measure_p=0.1, gate_defs=3, depth=1)
+        nodes = list(nodes)
+        sites = [(i, None) for i, nd in enumerate(nodes) if nd[0] == "apply"]
+        sites += [(i, j) for i, nd in enumerate(nodes) if nd[0] == "gate" for j, b in enumerate(nd[4])]
+        if not sites:
+            continue
+        i, j = rng.choice(sites)
+        if j is None:
+            nodes[i] = bump(nodes[i])
+        else:
+            g = nodes[i]; body = list(g[4]); body[j] = bump(body[j])
+            nodes[i] = (g[0], g[1], g[2], g[3], body)
+            # make sure the changed gate is actually applied
+            qs = lay.qubits()
+            if len(qs) >= len(g[2]):
+                nodes.append(("apply", g[1], rng.sample(qs, len(g[2])), [("num", "0.5")] * len(g[3])))
+        out.append((qa.p_program(nodes, rng), None))
     # K1: recorded finding (external parser recursion), one instance
     out.append(("qreg q[1]; creg c[1]; " + "if(c==0) " * 20000 + "x q[0];", "nested-if-depth>=20000"))
     # token- and byte-level mutations
